@@ -151,6 +151,32 @@ func VerifH_RTJsByte() {
 		symx.Assert(back[i] == v[i], "JsByte: and the same elements")
 	}
 	symx.Assert(v.ToString() == string(v.ToJS()), "ToString and ToJS agree")
+	// the encoder's outputs are values of their own: the text of one list still decodes to that list
+	// after another list has been encoded (by any of the three encoders) in between
+	w := make(JsByte, symx.Concrete(symx.Int("otherLen"), 0, 2))
+	for i := range w {
+		w[i] = symx.Uint8("c")
+	}
+	first := v.ToJS()
+	var second string
+	switch symx.Concrete(symx.Int("secondEncoder"), 0, 2) {
+	case 0:
+		second = string(w.ToJS())
+	case 1:
+		second = w.ToString()
+	case 2:
+		mb, _ := w.MarshalJSON()
+		second = string(mb[1 : len(mb)-1])
+	}
+	var back1, back2 JsByte
+	symx.Assert(back1.FromString(string(first)) == nil && len(back1) == n, "JsByte: an earlier text still decodes after a later encode")
+	for i := 0; i < n && i < len(back1); i++ {
+		symx.Assert(back1[i] == v[i], "JsByte: an earlier text still denotes its own list after a later encode")
+	}
+	symx.Assert(back2.FromString(second) == nil && len(back2) == len(w), "JsByte: the later text decodes")
+	for i := 0; i < len(w) && i < len(back2); i++ {
+		symx.Assert(back2[i] == w[i], "JsByte: the later text denotes the later list")
+	}
 	symx.Reach("end")
 }
 
